@@ -8,7 +8,7 @@ import (
 
 // Every generated function has these parameters; impure operands are calls of the functions declared
 // in Preamble (in differential programs they log their name and return values from a script).
-const Params = "a, b, c int, u, v uint, p, q float64, s, t string, k, l bool, xs []int, bs []byte, ms myStr, mi myInts, mm myMap, ma myArr, pa *myArr, w *wr"
+const Params = "a, b, c int, u, v uint, p, q float64, s, t string, k, l bool, xs []int, bs []byte, ms myStr, mi myInts, mm myMap, ma myArr, pa *myArr, w *wr, mf, mg myF, mc, mc2 myC, fa [2]myF"
 
 // Preamble for files that are only analysed (never run).
 const LintPreamble = `
@@ -37,15 +37,31 @@ type myErr struct{}
 
 func (myErr) Error() string { return "e" }
 
+type myF float64
+type myC complex128
+
+func fmf() myF { return 0 }
+
 type wr struct {
 	err error
 	buf []int
+	g   myF
 }
 
 func (w *wr) flush() { w.err = myErr{}; w.buf = []int{1} }
 func (w *wr) peek() int { return len(w.buf) }
 
 var gxs []int
+
+// callee forms for function-literal rewrites: func-typed struct field, func-typed package variable
+type obj struct {
+	f func(int) int
+	n int
+}
+
+var gf func(int) int = hi
+
+func hj(x int) int { return x * 3 }
 
 func setG() { gxs = []int{1} }
 `
@@ -100,8 +116,12 @@ func bin(op string, prec int, l, r ex) ex {
 func (g *G) numType() string {
 	switch g.Fl {
 	case FlFloat:
-		if g.chance(70) {
+		// float64 and a defined type whose underlying type is float64
+		switch n := g.pick(100); {
+		case n < 45:
 			return "float"
+		case n < 72:
+			return "mfloat"
 		}
 		return "int"
 	case FlString:
@@ -142,9 +162,11 @@ func (g *G) IntLit(n int) string {
 	}
 }
 
+func isFloatT(t string) bool { return t == "float" || t == "mfloat" }
+
 func (g *G) lit(t string, n int) ex {
 	switch t {
-	case "float":
+	case "float", "mfloat":
 		switch g.pick(4) {
 		case 0:
 			return ex{fmt.Sprintf("%d.5", n), 7}
@@ -173,6 +195,9 @@ func (g *G) variable(t string) ex {
 		return ex{[]string{"u", "v"}[g.pick(2)], 7}
 	case "float":
 		return ex{[]string{"p", "q"}[g.pick(2)], 7}
+	case "mfloat":
+		// variables of the defined type, a struct field and array elements of it
+		return ex{[]string{"mf", "mg", "mf", "mg", "w.g", "fa[0]", "fa[1]"}[g.pick(7)], 7}
 	case "string":
 		return ex{[]string{"s", "t"}[g.pick(2)], 7}
 	}
@@ -190,6 +215,8 @@ func (g *G) impure(t string) ex {
 		return ex{"fu()", 7}
 	case "float":
 		return ex{"ff()", 7}
+	case "mfloat":
+		return ex{"fmf()", 7}
 	case "string":
 		return ex{"fs()", 7}
 	}
@@ -235,7 +262,7 @@ func (g *G) Num(d int, t string) ex {
 		}
 		return bin("-", 4, g.Num(d-1, t), g.Num(d-1, t))
 	case n < 11:
-		if t == "float" {
+		if isFloatT(t) {
 			return bin("+", 4, g.Num(d-1, t), g.lit(t, g.smallInt()))
 		}
 		return bin("*", 5, g.Num(d-1, t), g.Num(d-1, t))
@@ -298,6 +325,16 @@ func (g *G) pickSub(t string) int {
 var cmpOps = []string{"==", "!=", "<", "<=", ">", ">="}
 
 func (g *G) cmp(d int) ex {
+	if g.Fl == FlFloat && g.chance(8) {
+		// a defined complex type: only == and != exist
+		c := func() ex {
+			if g.chance(30) {
+				return bin("+", 4, ex{"mc", 7}, ex{"mc2", 7})
+			}
+			return ex{[]string{"mc", "mc2"}[g.pick(2)], 7}
+		}
+		return bin(cmpOps[g.pick(2)], 3, c(), c())
+	}
 	t := g.numType()
 	return bin(cmpOps[g.pick(6)], 3, g.Num(d-1, t), g.Num(d-1, t))
 }
@@ -379,7 +416,7 @@ func (g *G) rangeShape(d int) ex {
 // litFor: integer-valued literal usable at type t (float operands mostly get plain int spellings
 // so that only the hasFloats guard stands between the expression and foldRanges)
 func (g *G) litFor(t string, n int) ex {
-	if t == "float" && g.chance(30) {
+	if isFloatT(t) && g.chance(30) {
 		return g.lit(t, n)
 	}
 	return ex{g.IntLit(n), 7}
